@@ -1,6 +1,7 @@
-(* EquiCertProofs.v — C16 at every size: soundness of the certificate judge of EquiCertModel.v.  A record whose certificate
-   checks determines the determinant gcd k = |prod d| of M, M is equimodular for k and (EquiUnique.equimodular_unique) for no
-   other value; an accepted record therefore reports exactly what the definition (EquiProofs.Equimodular) says. *)
+(* EquiCertProofs.v — C16 at every size and every rank: soundness of the certificate judge of EquiCertModel.v.  A record whose
+   certificate checks (M = L X, L = ops([diag d; 0]) of size m x r, r = |d| <= m) determines the determinant gcd k = |prod d|
+   of M (EquiUnique.minors_gcd_cert_L), M is equimodular for k and (EquiUnique.equimodular_unique) for no other value; an
+   accepted record therefore reports exactly what the definition (EquiProofs.Equimodular) says. *)
 From Cmr Require Import Base Det BaseProofs BalancedProofs TuModel GraphModel SpModel TuNetModel EquiModel EquiProofs
   EquiCertModel EquiAux.
 From Cmr Require TuNetProofs EquiUnique.
@@ -33,17 +34,17 @@ Proof.
   apply andb_true_iff in H; destruct H as [H Hxc].
   apply andb_true_iff in H; destruct H as [H Hxr].
   apply andb_true_iff in H; destruct H as [H Hnz].
-  rename H into Hlen.
-  apply Nat.eqb_eq in Hlen, HlenB. apply mat_eqb_eq in HM.
+  rename H into Hlen. cbv zeta in *.
+  apply Nat.leb_le in Hlen. apply Nat.eqb_eq in HlenB. apply mat_eqb_eq in HM.
   apply TuNetProofs.tu_certified_tu_bf in Htu.
   pose proof (prod_list_nonzero d Hnz) as Hp.
-  assert (Hk : minors_gcd m m (cert_L m d ops) = k).
-  { rewrite (EquiUnique.minors_gcd_square m _ HwfL). unfold k, equi_cert_k, prod_list, cert_L.
-    subst m. apply (EquiUnique.det_apply_ops d ops). }
+  set (r := length d) in *.
+  assert (Hk : minors_gcd m r (cert_L m d ops) = k).
+  { unfold k, equi_cert_k, prod_list. apply (EquiUnique.minors_gcd_cert_L m d ops Hlen). }
   assert (Hpos : 0 < k) by (unfold k, equi_cert_k; lia).
   assert (HE : Equimodular m n M k).
   { rewrite HM, mat_mul_eq, <- Hk.
-    apply (equimodular_construct_b m m n (cert_L m d ops) X B); try assumption. rewrite Hk. exact Hpos. }
+    apply (equimodular_construct_b m r n (cert_L m d ops) X B); try assumption. rewrite Hk. exact Hpos. }
   split; [assumption|]. split; [assumption|].
   intros k' HE'. exact (EquiUnique.equimodular_unique' m n M k' k HE' HE).
 Qed.
@@ -135,6 +136,31 @@ Example ex_cert_wrong_verdict :
   judge_equi_cert [2; 0;  2; 3; 0; 3; 3; 2; 3; 5;  0; 1; 0;   2; 2; 3;   2; 0; 0; 1; 1; 1; 0; 1; 0;
                    2; 3; 1; 0; 1; 0; 1; 1;   2; 0; 1;   0] = 452.
 Proof. vm_compute. reflexivity. Qed.
+
+(* rank-deficient: m = 3, d = (2,3) (r = 2), ops = [row2 += 1*row0; swap 0 1], X and B as above:
+   L = [[0;3];[2;0];[2;0]], M = L X = [[0;3;3];[2;0;2];[2;0;2]] of rank 2, k = 6 *)
+Example ex_cert_record_rank_deficient :
+  judge_equi_cert [0; 0;  3; 3; 0; 3; 3; 2; 0; 2; 2; 0; 2;  0; 1; 6;   2; 2; 3;   2; 0; 2; 0; 1; 1; 0; 1; 0;
+                   2; 3; 1; 0; 1; 0; 1; 1;   2; 0; 1;   0] = 0.
+Proof. vm_compute. reflexivity. Qed.
+
+Example ex_cert_record_rank_deficient_checks :
+  equi_cert_check 3 3 [[0;3;3];[2;0;2];[2;0;2]] [2;3] [RAdd 2 0 1; RSwap 0 1] 2 3 [[1;0;1];[0;1;1]] [0%nat;1%nat] WNone = true.
+Proof. vm_compute. reflexivity. Qed.
+
+Example ex_cert_rank_deficient_wrong_k :
+  judge_equi_cert [0; 0;  3; 3; 0; 3; 3; 2; 0; 2; 2; 0; 2;  0; 1; 2;   2; 2; 3;   2; 0; 2; 0; 1; 1; 0; 1; 0;
+                   2; 3; 1; 0; 1; 0; 1; 1;   2; 0; 1;   0] = 453.
+Proof. vm_compute. reflexivity. Qed.
+
+Example ex_cert_rank_deficient_agrees_with_oracle :
+  forall k, In k (equimod_all 3 3 [[0;3;3];[2;0;2];[2;0;2]]) <-> k = 6.
+Proof.
+  intros k. split.
+  - intros H. apply equimod_all_sound in H.
+    exact (proj2 (proj2 (equi_cert_check_sound _ _ _ _ _ _ _ _ _ _ ex_cert_record_rank_deficient_checks)) k H).
+  - intros ->. vm_compute. tauto.
+Qed.
 
 Example ex_cert_agrees_with_oracle : equimod_all 2 3 [[0;3;3];[2;3;5]] = [6; 6; 6].
 Proof. vm_compute. reflexivity. Qed.
